@@ -34,7 +34,73 @@ def find_roots(funcs, rx):
     return [n for n in funcs if r.search(n)]
 
 
+def run_scan(funcs, o, tier):
+    """one `never` query per function in scope that contains a matching event"""
+    spec = dict(o["spec"])
+    spec.setdefault("auto_inline", False); spec.setdefault("depth", 0)
+    rec = dict(o); rec.pop("spec", None)
+    rec["spec"] = o["id"]; rec["native"] = spec.get("native")
+    t0 = time.time()
+    scope = [re.compile(r) for r in spec["scope"]]
+    excl = [re.compile(r) for r in spec.get("exclude", [r"::tests?::", r"::test::"])]
+    ev_name = spec["checks"][0][1]
+    queries = 0; solver_s = 0.0; failed = []; scanned = 0; with_event = 0
+    for name, fl in funcs.items():
+        if not any(r.search(name) for r in scope) or any(r.search(name) for r in excl):
+            continue
+        for f in fl:
+            scanned += 1
+            g = ENC.Graph(funcs, REPO, spec)
+            try:
+                g.expand(f, (), 0, [])
+            except Exception:
+                continue
+            counts = ENC.match_events(g, spec["events"])
+            if counts.get(ev_name, 0) == 0:
+                continue
+            with_event += 1
+            lines, bad, notes = ENC.build_smt(g, spec, ("never", ev_name))
+            res, out, dt, q = ENC.solve(lines, bad)
+            queries += 1; solver_s += dt
+            if res == "sat":
+                r2, _, dt2, _ = ENC.solve(lines, bad, solver="cvc5")
+                queries += 1; solver_s += dt2
+                if r2 == "sat":
+                    path, tags = ENC.model_path(g, out)
+                    steps = [s for s in ENC.describe_path(g, path, tags) if s.get("events")]
+                    failed.append({"class": "mirproto", "desc": "%s reachable in %s" % (ev_name, name), "file": name, "line": None, "path": steps})
+    # vacuity witness: with the allow-list switched off the detector must find the documented sinks
+    wspec = dict(spec)
+    wspec["events"] = {k: {kk: vv for kk, vv in v.items() if kk != "allow"} for k, v in spec["events"].items()}
+    sinks_found = 0
+    for name, fl in funcs.items():
+        if not any(r.search(name) for r in scope) or any(r.search(name) for r in excl):
+            continue
+        for f in fl:
+            g = ENC.Graph(funcs, REPO, wspec)
+            try:
+                g.expand(f, (), 0, [])
+            except Exception:
+                continue
+            if ENC.match_events(g, wspec["events"]).get(ev_name, 0) == 0:
+                continue
+            lines, bad, notes = ENC.build_smt(g, wspec, ("never", ev_name))
+            res, out, dt, q = ENC.solve(lines, bad)
+            queries += 1; solver_s += dt
+            if res == "sat":
+                sinks_found += 1
+    verdict = "violated" if failed else "discharged"
+    rec.update(verdict=verdict, reason=None, queries=queries, solver_s=round(solver_s, 3), failed=failed,
+               witnessed=scanned > 0 and sinks_found > 0 and verdict == "discharged",
+               detail={"functions_scanned": scanned, "functions_with_candidate_event": with_event, "documented_sinks_reached_without_allow_list": sinks_found, "allow_list": spec["events"][ev_name].get("allow")},
+               functions=["%d function bodies matching %s" % (scanned, spec["scope"])], wall_s=round(time.time() - t0, 2),
+               bounds="per function, loops unrolled %d, no inlining" % spec.get("unroll", 2))
+    return rec
+
+
 def run_one(funcs, o, tier):
+    if o["spec"].get("kind") == "scan":
+        return run_scan(funcs, o, tier)
     spec = dict(o["spec"])
     if tier == "thorough":
         spec["unroll"] = spec.get("unroll_thorough", spec.get("unroll", 2) + 2)
